@@ -9,4 +9,406 @@ theorem gate_first : peerGateFirst = true := by decide
 theorem order_eq : headerOrder = ["X-Real-IP", "X-Forwarded-For"] := by decide
 theorem reversed : hopsReversed = true := by decide
 
+/-! ### the loop over the hops -/
+
+/-- `if lastTrusted != "" { return lastTrusted }`. -/
+def finish : Option Tok → Option Tok
+  | some t => if t.text ≠ "" then some t else none
+  | none => none
+
+/-- What the loop computes: the first hop (in visiting order) that is an address and not
+trusted; if there is none, the last hop that is an address (all of those are trusted),
+falling back to the incoming `last`. -/
+theorem scan_eq (l : List Cidr) (hs : List Tok) (last : Option Tok) :
+    scan l hs last =
+      match hs.find? (fun h => h.valid && !allowed l h.bytes) with
+      | some h => some h
+      | none => finish ((hs.reverse.find? (fun h => h.valid)).or last) := by
+  induction hs generalizing last with
+  | nil => cases last <;> simp [scan, finish]
+  | cons h rest ih =>
+    by_cases hv : h.valid = true
+    · by_cases ht : allowed l h.bytes = true
+      · have : scan l (h :: rest) last = scan l rest (some h) := by simp [scan, hv, ht]
+        rw [this, ih]
+        simp only [List.find?_cons, hv, ht, Bool.not_true, Bool.and_false, List.reverse_cons,
+          List.find?_append]
+        cases rest.find? (fun h => h.valid && !allowed l h.bytes) <;> simp
+      · have ht' : allowed l h.bytes = false := by simpa using ht
+        simp [scan, hv, ht']
+    · have hv' : h.valid = false := by simpa using hv
+      have : scan l (h :: rest) last = scan l rest last := by simp [scan, hv']
+      rw [this, ih]
+      simp only [List.find?_cons, hv', Bool.false_and, List.reverse_cons, List.find?_append,
+        List.find?_nil]
+      cases rest.find? (fun h => h.valid && !allowed l h.bytes) <;> simp
+
+theorem finish_of_wf {hs : List Tok} (hw : hs.all Tok.wf = true) :
+    finish (hs.find? (fun h => h.valid)) = hs.find? (fun h => h.valid) := by
+  cases hf : hs.find? (fun h => h.valid) with
+  | none => rfl
+  | some t =>
+    have hv : t.valid = true := by simpa using List.find?_some hf
+    have hm : t ∈ hs := List.mem_of_find?_eq_some hf
+    have hwf : t.wf = true := (List.all_eq_true.mp hw) t hm
+    have : t.text ≠ "" := by simpa [Tok.wf, hv] using hwf
+    simp [finish, this]
+
+/-- `fromForwarded` in the words of the statement. -/
+theorem fromForwarded_eq (l : List Cidr) (r : Req) (hw : r.hops.all Tok.wf = true) :
+    fromForwarded l r =
+      match r.hops.reverse.find? (fun h => h.valid && !allowed l h.bytes) with
+      | some h => some h
+      | none => r.hops.find? (fun h => h.valid) := by
+  unfold fromForwarded
+  rw [reversed, if_pos rfl, scan_eq]
+  cases r.hops.reverse.find? (fun h => h.valid && !allowed l h.bytes) with
+  | some h => rfl
+  | none => simp [finish_of_wf hw]
+
+theorem fromXReal_eq (r : Req) (hw : r.xreal.all Tok.wf = true) :
+    fromXReal r = match r.xreal.head? with
+      | some t => if t.valid then some t else none
+      | none => none := by
+  unfold fromXReal
+  cases hx : r.xreal with
+  | nil => rfl
+  | cons t rest =>
+    have hwf : t.wf = true := by
+      have := List.all_eq_true.mp hw t (by simp [hx])
+      exact this
+    by_cases hv : t.valid = true
+    · have : t.text ≠ "" := by simpa [Tok.wf, hv] using hwf
+      simp [hv, this]
+    · simp [hv]
+
+theorem consult_eq (l : List Cidr) (r : Req) :
+    consult l r headerOrder = (fromXReal r).or (fromForwarded l r) := by
+  rw [order_eq]
+  simp only [consult]
+  cases fromXReal r <;> cases fromForwarded l r <;> simp
+
+/-! ### networks -/
+
+theorem to4_getD_eq_unmap (ip : List Nat) : (to4 ip).getD ip = unmap ip := by
+  unfold to4 unmap v4InV6Prefix
+  by_cases h4 : ip.length = 4
+  · have : ¬ ip.length = 16 := by omega
+    simp [h4]
+  · by_cases h16 : ip.length = 16 ∧ ip.take 12 = [0, 0, 0, 0, 0, 0, 0, 0, 0, 0, 255, 255]
+    · simp [h16]
+    · simp [h4, h16]
+
+/-! ### Go's byte-and-mask loop is prefix matching on bits -/
+
+def fromBits : List Bool → Nat
+  | [] => 0
+  | b :: bs => (if b then 2 ^ bs.length else 0) + fromBits bs
+
+theorem byte_and_255 : ∀ a < 256, a &&& 255 = a := by decide +kernel
+theorem byte_fromBits : ∀ a < 256, fromBits (bits8 a) = a := by decide +kernel
+theorem byte_and_partial : ∀ j < 8, ∀ a < 256,
+    a &&& partialByte j = fromBits ((bits8 a).take j ++ List.replicate (8 - j) false) := by decide +kernel
+theorem byte_bits_and_partial : ∀ j < 8, ∀ a < 256,
+    (bits8 (a &&& partialByte j)).take j = (bits8 a).take j := by decide +kernel
+theorem partial_not_full : ∀ j < 8, (bits8 (partialByte j)).all id = false := by decide
+theorem partial_ones : ∀ j < 8, leadingOnes (bits8 (partialByte j)) = j := by decide
+
+theorem bits8_length (a : Nat) : (bits8 a).length = 8 := rfl
+
+theorem bits8_inj {a b : Nat} (ha : a < 256) (hb : b < 256) (h : bits8 a = bits8 b) : a = b := by
+  rw [← byte_fromBits a ha, ← byte_fromBits b hb, h]
+
+theorem byte_masked_full {a b : Nat} (ha : a < 256) (hb : b < 256) :
+    (a &&& 255 = b &&& 255) ↔ bits8 b = bits8 a := by
+  rw [byte_and_255 a ha, byte_and_255 b hb]
+  constructor
+  · intro h; rw [h]
+  · intro h; exact (bits8_inj hb ha h).symm
+
+theorem byte_masked_partial {j a b : Nat} (hj : j < 8) (ha : a < 256) (hb : b < 256) :
+    (a &&& partialByte j = b &&& partialByte j) ↔ (bits8 b).take j = (bits8 a).take j := by
+  constructor
+  · intro h
+    rw [← byte_bits_and_partial j hj a ha, ← byte_bits_and_partial j hj b hb, h]
+  · intro h
+    rw [byte_and_partial j hj a ha, byte_and_partial j hj b hb, h]
+
+theorem bitsOf_length (l : List Nat) : (bitsOf l).length = 8 * l.length := by
+  induction l with
+  | nil => rfl
+  | cons a l ih => simp [bitsOf, bits8_length, ih]; omega
+
+theorem leadingOnes_le (bs : List Bool) : leadingOnes bs ≤ bs.length := by
+  induction bs with
+  | nil => simp [leadingOnes]
+  | cons b bs ih => cases b <;> simp [leadingOnes]; omega
+
+theorem leadingOnes_append (x rest : List Bool) :
+    leadingOnes (x ++ rest) = if x.all id then x.length + leadingOnes rest else leadingOnes x := by
+  induction x with
+  | nil => simp
+  | cons b x ih =>
+    cases b
+    · simp [leadingOnes]
+    · simp only [List.cons_append, leadingOnes, ih, List.all_cons, id, Bool.true_and, List.length_cons]
+      split <;> omega
+
+/-- `leadingOnes` recovers the prefix length of a `CIDRMask`. -/
+theorem leadingOnes_cidrMask (len p : Nat) (hp : p ≤ 8 * len) :
+    leadingOnes (bitsOf (cidrMask p len)) = p := by
+  induction len generalizing p with
+  | zero =>
+    have : p = 0 := by omega
+    subst this; rfl
+  | succ l ih =>
+    unfold cidrMask
+    by_cases h8 : 8 ≤ p
+    · rw [if_pos h8]
+      simp only [bitsOf]
+      rw [leadingOnes_append]
+      have : (bits8 255).all id = true := by decide
+      rw [this, if_pos rfl, ih (p - 8) (by omega), bits8_length]; omega
+    · rw [if_neg h8]
+      simp only [bitsOf]
+      rw [leadingOnes_append, partial_not_full p (by omega)]
+      simp [partial_ones p (by omega)]
+
+theorem cidrMask_succ (p l : Nat) :
+    cidrMask p (l + 1) = if 8 ≤ p then 255 :: cidrMask (p - 8) l else partialByte p :: cidrMask 0 l := by
+  rw [cidrMask]
+
+/-- Dropping whole bytes from a `CIDRMask` leaves a `CIDRMask`. -/
+theorem cidrMask_drop (k l p : Nat) : (cidrMask p (k + l)).drop k = cidrMask (p - 8 * k) l := by
+  induction k generalizing p with
+  | zero => simp
+  | succ k ih =>
+    have : k + 1 + l = (k + l) + 1 := by omega
+    rw [this, cidrMask_succ]
+    by_cases h8 : 8 ≤ p
+    · rw [if_pos h8, List.drop_succ_cons, ih]
+      have : p - 8 - 8 * k = p - 8 * (k + 1) := by omega
+      rw [this]
+    · rw [if_neg h8, List.drop_succ_cons, ih]
+      have : 0 - 8 * k = p - 8 * (k + 1) := by omega
+      rw [this]
+
+theorem bytesOk_cons {a : Nat} {l : List Nat} : bytesOk (a :: l) = true ↔ a < 256 ∧ bytesOk l = true := by
+  simp [bytesOk]
+
+/-- The loop of `IPNet.Contains` with a `CIDRMask` compares the first `p` bits. -/
+theorem maskedEq_cidrMask (len p : Nat) (nn a : List Nat) (hn : nn.length = len) (ha : a.length = len)
+    (bn : bytesOk nn = true) (ba : bytesOk a = true) (hp : p ≤ 8 * len) :
+    maskedEq nn (cidrMask p len) a = true ↔ (bitsOf a).take p = (bitsOf nn).take p := by
+  induction len generalizing p nn a with
+  | zero =>
+    have h1 : nn = [] := List.length_eq_zero_iff.mp hn
+    have h2 : a = [] := List.length_eq_zero_iff.mp ha
+    subst h1 h2
+    simp [maskedEq, bitsOf]
+  | succ l ih =>
+    match nn, a, hn, ha with
+    | x :: nn', y :: a', hn, ha =>
+      have hn' : nn'.length = l := by simpa using hn
+      have ha' : a'.length = l := by simpa using ha
+      obtain ⟨hx, bn'⟩ := bytesOk_cons.mp bn
+      obtain ⟨hy, ba'⟩ := bytesOk_cons.mp ba
+      unfold cidrMask
+      by_cases h8 : 8 ≤ p
+      · rw [if_pos h8]
+        simp only [maskedEq, bitsOf, Bool.and_eq_true, beq_iff_eq]
+        rw [ih (p - 8) nn' a' hn' ha' bn' ba' (by omega), byte_masked_full hx hy]
+        have e1 : (bits8 y ++ bitsOf a').take p = bits8 y ++ (bitsOf a').take (p - 8) := by
+          rw [List.take_append, bits8_length, List.take_of_length_le (by rw [bits8_length]; exact h8)]
+        have e2 : (bits8 x ++ bitsOf nn').take p = bits8 x ++ (bitsOf nn').take (p - 8) := by
+          rw [List.take_append, bits8_length, List.take_of_length_le (by rw [bits8_length]; exact h8)]
+        rw [e1, e2]
+        constructor
+        · rintro ⟨h1, h2⟩; rw [h1, h2]
+        · intro h
+          exact List.append_inj h (by simp [bits8_length])
+      · rw [if_neg h8]
+        have hj : p < 8 := by omega
+        simp only [maskedEq, bitsOf, Bool.and_eq_true, beq_iff_eq]
+        have hrest : maskedEq nn' (cidrMask 0 l) a' = true :=
+          (ih 0 nn' a' hn' ha' bn' ba' (by omega)).mpr (by simp)
+        rw [byte_masked_partial hj hx hy]
+        have e1 : (bits8 y ++ bitsOf a').take p = (bits8 y).take p := by
+          rw [List.take_append_of_le_length (by rw [bits8_length]; omega)]
+        have e2 : (bits8 x ++ bitsOf nn').take p = (bits8 x).take p := by
+          rw [List.take_append_of_le_length (by rw [bits8_length]; omega)]
+        rw [e1, e2]
+        constructor
+        · rintro ⟨h1, _⟩; exact h1
+        · intro h; exact ⟨h, hrest⟩
+
+theorem cidrMask_length (p len : Nat) : (cidrMask p len).length = len := by
+  induction len generalizing p with
+  | zero => rfl
+  | succ l ih => rw [cidrMask_succ]; split <;> simp [ih]
+
+theorem bytesOk_drop {l : List Nat} (k : Nat) (h : bytesOk l = true) : bytesOk (l.drop k) = true := by
+  unfold bytesOk at *
+  rw [List.all_eq_true] at *
+  intro x hx
+  exact h x (List.mem_of_mem_drop hx)
+
+theorem bytesOk_unmap {l : List Nat} (h : bytesOk l = true) : bytesOk (unmap l) = true := by
+  unfold unmap; split
+  · exact bytesOk_drop 12 h
+  · exact h
+
+theorem unmap_length {l : List Nat} (h : l.length = 4 ∨ l.length = 16) :
+    (unmap l).length = 4 ∨ (unmap l).length = 16 := by
+  unfold unmap; split
+  · rename_i h16; left; simp [h16.1]
+  · exact h
+
+/-- `networkNumberAndMask` in terms of the un-mapped network address. -/
+theorem nnm_eq (n : Cidr) (hl : n.ip.length = 4 ∨ n.ip.length = 16) :
+    networkNumberAndMask n =
+      if n.mask.length = 4 then (if (unmap n.ip).length = 4 then (unmap n.ip, n.mask) else ([], []))
+      else if n.mask.length = 16 then
+        (if (unmap n.ip).length = 4 then (unmap n.ip, n.mask.drop 12) else (unmap n.ip, n.mask))
+      else ([], []) := by
+  unfold networkNumberAndMask to4 unmap v4InV6Prefix
+  rcases hl with h4 | h16
+  · have : ¬ n.ip.length = 16 := by omega
+    simp [h4]
+  · have h4 : ¬ n.ip.length = 4 := by omega
+    by_cases hp : n.ip.take 12 = [0, 0, 0, 0, 0, 0, 0, 0, 0, 0, 255, 255]
+    · simp [h16, hp]
+    · simp [h16, hp]
+
+/-- The comparison both sides end with, once network number and mask are fixed. -/
+theorem contains_core (nn m a : List Nat) (len p : Nat) (hm : m = cidrMask p len) (hp : p ≤ 8 * len)
+    (hnl : nn.length = len) (bn : bytesOk nn = true) (ba : bytesOk a = true)
+    (hal : a.length = 4 ∨ a.length = 16) :
+    (if a.length ≠ nn.length then false else maskedEq nn m a) =
+      ((a.length == 4 || a.length == 16) && a.length == nn.length && m.length == nn.length &&
+        (bitsOf a).take (leadingOnes (bitsOf m)) == (bitsOf nn).take (leadingOnes (bitsOf m))) := by
+  have hml : m.length = len := by rw [hm, cidrMask_length]
+  have hlo : leadingOnes (bitsOf m) = p := by rw [hm, leadingOnes_cidrMask len p hp]
+  have h1 : (a.length == 4 || a.length == 16) = true := by
+    rcases hal with h | h <;> simp [h]
+  rw [hlo, h1, hml, hnl]
+  by_cases hlen : a.length = len
+  · have := maskedEq_cidrMask len p nn a hnl hlen bn ba hp
+    rw [← hm] at this
+    simp only [hlen, ne_eq, not_true_eq_false, if_false, beq_self_eq_true, Bool.true_and]
+    rw [Bool.eq_iff_iff, this, beq_iff_eq]
+  · simp [hlen]
+
+/-- **`IPNet.Contains` is prefix matching.**  For every network as the parsers build them
+(address of 4 or 16 bytes, `CIDRMask` of 4 or 16 bytes) and every address of 4 or 16 bytes,
+Go's loop — with its IPv4-in-IPv6 conversions on both sides — says exactly: same family
+(after un-mapping) and the first `n` bits agree. -/
+theorem contains_eq_specContains (n : Cidr) (ip : List Nat) (hn : n.wf = true)
+    (hb : bytesOk ip = true) (hl : ip.length = 4 ∨ ip.length = 16) :
+    contains n ip = specContains n ip := by
+  simp only [Cidr.wf, Bool.and_eq_true, Bool.or_eq_true, beq_iff_eq] at hn
+  obtain ⟨⟨⟨⟨bip, bmask⟩, hcan⟩, hipl⟩, hml⟩ := hn
+  have hcan' : n.mask = cidrMask (leadingOnes (bitsOf n.mask)) n.mask.length := by
+    simpa [canonicalMask] using hcan
+  have hq : leadingOnes (bitsOf n.mask) ≤ 8 * n.mask.length := by
+    have := leadingOnes_le (bitsOf n.mask); rwa [bitsOf_length] at this
+  have ba := bytesOk_unmap hb
+  have bn := bytesOk_unmap bip
+  have hal := unmap_length hl
+  have hnl := unmap_length hipl
+  have hane : (unmap ip).length ≠ 0 := by rcases hal with h | h <;> omega
+  have hcontains : ∀ nn m, networkNumberAndMask n = (nn, m) →
+      contains n ip = (if (unmap ip).length ≠ nn.length then false else maskedEq nn m (unmap ip)) := by
+    intro nn m h
+    unfold contains
+    rw [h, to4_getD_eq_unmap]
+  have hspec : specContains n ip =
+      (((unmap ip).length == 4 || (unmap ip).length == 16) && (unmap ip).length == (unmap n.ip).length &&
+        (specMask n).length == (unmap n.ip).length &&
+        (bitsOf (unmap ip)).take (leadingOnes (bitsOf (specMask n))) ==
+          (bitsOf (unmap n.ip)).take (leadingOnes (bitsOf (specMask n)))) := rfl
+  rw [hspec]
+  rcases hml with hm4 | hm16
+  · -- 4-byte mask
+    have hm16 : ¬ n.mask.length = 16 := by omega
+    have hsm : specMask n = n.mask := by simp [specMask, hm16]
+    rcases hnl with hn4 | hn16
+    · have hnnm : networkNumberAndMask n = (unmap n.ip, n.mask) := by
+        rw [nnm_eq n hipl]; simp [hm4, hn4]
+      rw [hcontains _ _ hnnm, hsm]
+      exact contains_core (unmap n.ip) n.mask (unmap ip) 4 _ (by rw [hm4] at hcan'; exact hcan')
+        (by omega) hn4 bn ba hal
+    · have hnnm : networkNumberAndMask n = ([], []) := by
+        rw [nnm_eq n hipl]; simp [hm4, hn16]
+      rw [hcontains _ _ hnnm, hsm]
+      simp [hm4, hn16, hane]
+  · -- 16-byte mask
+    have hm4 : ¬ n.mask.length = 4 := by omega
+    rcases hnl with hn4 | hn16
+    · have hsm : specMask n = n.mask.drop 12 := by simp [specMask, hm16, hn4]
+      have hdrop : n.mask.drop 12 = cidrMask (leadingOnes (bitsOf n.mask) - 8 * 12) 4 := by
+        conv => lhs; rw [hcan', hm16]
+        exact cidrMask_drop 12 4 _
+      have hnnm : networkNumberAndMask n = (unmap n.ip, n.mask.drop 12) := by
+        rw [nnm_eq n hipl]; simp [hm16, hn4]
+      rw [hcontains _ _ hnnm, hsm]
+      exact contains_core (unmap n.ip) (n.mask.drop 12) (unmap ip) 4 _ hdrop (by omega) hn4 bn ba hal
+    · have hsm : specMask n = n.mask := by simp [specMask, hn16]
+      have hnnm : networkNumberAndMask n = (unmap n.ip, n.mask) := by
+        rw [nnm_eq n hipl]; simp [hm16, hn16]
+      rw [hcontains _ _ hnnm, hsm]
+      exact contains_core (unmap n.ip) n.mask (unmap ip) 16 _ (by rw [hm16] at hcan'; exact hcan')
+        (by omega) hn16 bn ba hal
+
+theorem allowed_eq_specAllowed (l : List Cidr) (ip : List Nat) (hw : l.all Cidr.wf = true)
+    (hb : bytesOk ip = true) (hl : ip.length = 4 ∨ ip.length = 16) :
+    allowed l ip = specAllowed l ip := by
+  unfold allowed specAllowed
+  induction l with
+  | nil => rfl
+  | cons n l ih =>
+    have h := List.all_cons ▸ hw
+    simp only [Bool.and_eq_true] at h
+    simp only [List.any_cons, contains_eq_specContains n ip h.1 hb hl, ih h.2]
+
+/-! ### the spec depends on the trust predicate only at the addresses of the request -/
+
+theorem Tok.bytes_ok {t : Tok} (hv : t.valid = true) (hw : t.ipwf = true) :
+    bytesOk t.bytes = true ∧ (t.bytes.length = 4 ∨ t.bytes.length = 16) := by
+  unfold Tok.valid at hv
+  unfold Tok.ipwf at hw
+  unfold Tok.bytes
+  cases hip : t.ip with
+  | none => simp [hip] at hv
+  | some b =>
+    simp only [hip, Bool.and_eq_true, Bool.or_eq_true, beq_iff_eq] at hw
+    simpa using hw
+
+theorem find?_congr' {α : Type} {p q : α → Bool} : ∀ (l : List α), (∀ x ∈ l, p x = q x) →
+    l.find? p = l.find? q
+  | [], _ => rfl
+  | a :: l, h => by
+    have ha : p a = q a := h a (by simp)
+    have ih := find?_congr' l (fun x hx => h x (by simp [hx]))
+    simp only [List.find?_cons, ha, ih]
+
+theorem specRealIP_congr (f g : List Nat → Bool) (r : Req)
+    (hp : r.peer.valid = true → f r.peer.bytes = g r.peer.bytes)
+    (hh : ∀ t ∈ r.hops, t.valid = true → f t.bytes = g t.bytes) :
+    specRealIP f r = specRealIP g r := by
+  have hfind : r.hops.reverse.find? (fun h => h.valid && !f h.bytes) =
+      r.hops.reverse.find? (fun h => h.valid && !g h.bytes) := by
+    apply find?_congr'
+    intro t ht
+    by_cases hv : t.valid = true
+    · rw [hh t (List.mem_reverse.mp ht) hv]
+    · simp [hv]
+  have hfwd : specRealIP.fwd f r = specRealIP.fwd g r := by
+    unfold specRealIP.fwd; rw [hfind]
+  unfold specRealIP
+  rw [hfwd]
+  by_cases hv : r.peer.valid = true
+  · rw [hp hv]
+  · simp [hv]
+
 end SigModel.RealIP
